@@ -164,11 +164,14 @@ int main(int argc, char** argv) {
     });
     c.count("executions", st.executions);
     c.count("distinct_traces", seen.size());
-    if (st.capped) c.count("capped_cases");
+    if (st.capped) c.count("model_cases_cut_at_execution_cap");
+    // a (program, concurrency) whose schedule space was enumerated completely: only then is a libtbb trace outside the set a miss of the model
+    if (!st.capped && wc.first == 2) c.emit("COMPLETE C=" + std::to_string(wc.second) + " " + p.name);
+    if (!st.capped && wc.first == 3) c.emit("BOUNDED C=" + std::to_string(wc.second) + " " + p.name);
     c.distinct(hash_str(p.name + std::to_string(idx)));
     if (seen.size() > 1) c.nontrivial(hash_str(p.name + std::to_string(idx)));
     if (idx % 17 == 0) c.sample(p.name + ": " + std::to_string(st.executions) + " schedules, " + std::to_string(seen.size()) + " canonical traces");
-  }, {"executions", "distinct_traces", "capped_cases"});
+  }, {"executions", "distinct_traces", "model_cases_cut_at_execution_cap"});
   if (R.a.onlyCase.empty()) {
     std::set<std::string> all(lines.begin(), lines.end());
     std::ofstream f(setPath());
@@ -212,7 +215,11 @@ int main(int argc, char** argv) {
       if (strict) in = model.count("C=" + std::to_string(arenaSize) + " " + p.name + "\t" + t);
       else
         for (int cc : {1, 2, 3}) in = in || model.count("C=" + std::to_string(cc) + " " + p.name + "\t" + t);
-      if (strict) {
+      const bool complete = model.count("COMPLETE C=" + std::to_string(arenaSize <= 2 ? arenaSize : 3) + " " + p.name) && arenaSize <= 2;
+      if (strict && !in && !complete) {
+        // the model's enumeration for this program was bounded (W=3: preemption bound 4) or cut at its execution cap
+        c.count("traces_beyond_explored_bound");
+      } else if (strict) {
         c.count("traces_validated");
         if (!in) c.viol("conformance:" + p.name + ":arena" + std::to_string(arenaSize) + ":" + t, p.name,
                         "real libtbb (arena of " + std::to_string(arenaSize) + ") produced a canonical trace that no schedule of the model with the same concurrency produces: " + t);
@@ -223,7 +230,7 @@ int main(int argc, char** argv) {
     c.distinct(hash_str(p.name + std::to_string(arenaSize)));
     if (seen.size() > 1) c.nontrivial(hash_str(p.name + std::to_string(arenaSize)));
     if (idx % 23 == 0) c.sample(p.name + " arena " + std::to_string(arenaSize) + ": " + std::to_string(seen.size()) + " distinct traces in " + std::to_string(reps) + " runs");
-  }, {"runs", "distinct_traces_strict", "distinct_traces_large_arena", "traces_validated", "large_arena_traces_in_model", "large_arena_traces_beyond_thread_bound"});
+  }, {"runs", "distinct_traces_strict", "distinct_traces_large_arena", "traces_validated", "traces_beyond_explored_bound", "large_arena_traces_in_model", "large_arena_traces_beyond_thread_bound"});
 #endif
   return R.finish();
 }
